@@ -92,6 +92,9 @@ type streamableHTTPClientTransport struct {
 	client *Client
 }
 
+// maxGetSSELineSize bounds a single line of the GET SSE stream (one event's data).
+const maxGetSSELineSize = 64 * 1024 * 1024
+
 // NotificationHandler is a handler for notifications.
 type NotificationHandler func(notification *JSONRPCNotification) error
 
@@ -750,6 +753,9 @@ func (t *streamableHTTPClientTransport) connectGetSSE(ctx context.Context) error
 // Handle GET SSE event stream
 func (t *streamableHTTPClientTransport) handleGetSSEEvents(ctx context.Context, body io.ReadCloser) error {
 	scanner := bufio.NewScanner(body)
+	// The default token limit of 64 KiB silently ended the listening stream on the first larger
+	// event; allow lines up to maxGetSSELineSize.
+	scanner.Buffer(make([]byte, 0, 64*1024), maxGetSSELineSize)
 	var eventID, eventData string
 
 	for scanner.Scan() {
